@@ -29,7 +29,8 @@
         the last (every in-domain command writes something, `command_replies_nonempty`) —,
         `failing_last_is_exact` — never when it is the last. `exec_short_reply_deviates` is the
         closed witness.
-      - `OutOfDomain`: the request is outside the parser model (D11 panic, …) or the block meets a
+      - `OutOfDomain`: the request is outside the parser model (`out_of_scope_iff`: non-ASCII name,
+        number outside the numeric model, empty request; never a panic) or the block meets a
         command outside the command model's numeric domain (`RunRes.ood`): NO CLAIM by the wire
         model; `ood_block_no_claim` shows that the restriction is needed, `out_of_scope_inert` and
         `phase_is_own_history` what still holds.
@@ -50,6 +51,7 @@
   `usertx_atomic`; the reply would again be short).
 -/
 import RedkaModel.Proofs.Multi
+import RedkaModel.Proofs.WirePanic
 
 namespace Redka.Props.C15
 
@@ -175,10 +177,25 @@ theorem failing_not_last_is_short : ∀ (st : ConnState) (db : DB) (now : Int) (
     exact (List.prefix_cons_inj _).mpr (take_flatten_prefix _ _)
 
 /-- a request outside the parser model's domain leaves the connection and the tables alone and
-writes nothing (in the server a parser panic kills the process: D11, not part of C15) -/
+writes nothing -/
 theorem out_of_scope_inert : ∀ (st : ConnState) (db : DB) (now : Int) (req : List Bytes),
     classify req = none → handle st db now req = (st, db, []) :=
   fun st db now _ h => handle_out_of_scope h st db now
+
+/-- what "outside the parser model's domain" is, exactly: the model cannot decide the request
+(non-ASCII command name, a number outside the numeric model) or does not know a construct (the empty
+request, an unrecognised grammar). A parser panic (the former D11) is not among the cases: there is
+none (`WireProofs.parse_ne_panic`). -/
+theorem out_of_scope_iff : ∀ req : List Bytes,
+    classify req = none ↔ parse req = .outOfDomain ∨ ∃ t, parse req = .unsupported t := by
+  intro req
+  unfold classify
+  cases hp : parse req with
+  | panic => exact absurd hp (WireProofs.parse_ne_panic req)
+  | ok pc => simp
+  | error e => simp
+  | outOfDomain => simp
+  | unsupported t => simp
 
 /-! ### 3. request sequences -/
 
@@ -511,7 +528,8 @@ example : ∃ as, classifyAll seqRefuse = some as ∧ CleanRun .idle db0 as ∧
 example : classify [b "MULTI"] = some .multi ∧ classify [b "exec"] = some .exec ∧
     classify [b "Discard", b "x"] = some .discard ∧ classify [b "GET"] = some (.unparsable .invalidArgNum) ∧
     classify [b "SET", b "k1", b "v"] = some (.cmd (pc [b "SET", b "k1", b "v"])) ∧
-    classify [b "ZINTER", b "-1", b "k1"] = none := by
+    classify [b "ZINTER", b "-1", b "k1"] = some (.unparsable .invalidArgNum) ∧     -- D11 repaired
+    classify [[0xC3, 0xA9], b "k1"] = none ∧ classify [] = none := by
   decide +kernel
 
 example : handle { inMulti := true, cmds := [pc [b "INCR", b "k1"]] } db0 2000 [b "MULTI"]
